@@ -94,11 +94,27 @@ func momentsOf(occs []envlab.Occurrence) []momentRef {
 	return out
 }
 
-func pickWeight(r *rand.Rand) int { return weightSet[r.Intn(len(weightSet))] }
+// pickWeight: many small weights (equal and neighbouring weights stay frequent), the
+// round ones of the handbook, and some far out (the handbook's own examples go
+// to -666; operation_order.md uses -200), down to -1000 / up to +1000.
+func pickWeight(r *rand.Rand) int {
+	switch x := r.Intn(100); {
+	case x < 45:
+		return []int{-1, 0, 1, 5, -5, 0, 1, -1}[r.Intn(8)]
+	case x < 72:
+		return []int{-100, -50, -45, -41, -10, 7, 8, 9, 10, 50, 64, 100}[r.Intn(12)]
+	case x < 90:
+		return []int{-1000, -666, -200, -129, -128, -127, 127, 128, 200, 255, 256, 500, 1000}[r.Intn(13)]
+	}
+	return r.Intn(2001) - 1000
+}
 
 func laterWeight(r *rand.Rand, w int) int {
+	if r.Intn(3) == 0 {
+		return w + 1 + r.Intn(3) // a neighbour
+	}
 	var c []int
-	for _, x := range append(append([]int{}, weightSet...), 7, 50) {
+	for _, x := range append(append([]int{}, weightSet...), 7, 8, 9, 10, 50, 128, 200, 1000) {
 		if x > w {
 			c = append(c, x)
 		}
@@ -107,6 +123,25 @@ func laterWeight(r *rand.Rand, w int) int {
 		return w + 100
 	}
 	return c[r.Intn(len(c))]
+}
+
+// spell writes name and weight the way a workflow author might: plain, zero-padded,
+// zero as "+0" / "-0" / nothing. The value meant is the decimal one (envlab.ParseExpr).
+func spell(r *rand.Rand, name string, w int) string {
+	if w == 0 {
+		return name + []string{"", "", "+0", "-0", "+00", "-000"}[r.Intn(6)]
+	}
+	sign, a := "+", w
+	if w < 0 {
+		sign, a = "-", -w
+	}
+	switch r.Intn(10) {
+	case 0, 1, 2:
+		return fmt.Sprintf("%s%s0%d", name, sign, a)
+	case 3:
+		return fmt.Sprintf("%s%s00%d", name, sign, a)
+	}
+	return fmt.Sprintf("%s%s%d", name, sign, a)
 }
 
 // genHooks draws 1..maxHooks hooks over the moments of the walk. No hook fails.
@@ -139,8 +174,18 @@ func genHooks(r *rand.Rand, walk []string, maxHooks int, prefix string, allowGat
 			tm = momentRef{-1, -1, neverMoments[r.Intn(len(neverMoments))]}
 		default:
 			tm = moms[r.Intn(len(moms))]
+			if len(hooks) > 0 && r.Intn(100) < 25 {
+				// same moment as an earlier hook, neighbouring weight
+				name, pw := envlab.ParseExpr(hooks[r.Intn(len(hooks))].Trigger)
+				for _, m := range moms {
+					if m.Name == name {
+						tm, w = m, pw+[]int{-2, -1, 1, 2}[r.Intn(4)]
+						break
+					}
+				}
+			}
 		}
-		h.Trigger = envlab.Expr(tm.Name, w)
+		h.Trigger = spell(r, tm.Name, w)
 		// await
 		ak := r.Intn(100)
 		if h.Kind == envlab.Task && r.Intn(100) < 75 {
@@ -149,10 +194,10 @@ func genHooks(r *rand.Rand, walk []string, maxHooks int, prefix string, allowGat
 		switch {
 		case ak < 35 || tm.K < 0:
 			if r.Intn(2) == 0 {
-				h.Await = h.Trigger // explicit, same as omitted
+				h.Await = spell(r, tm.Name, w) // explicit, same point as omitted (maybe spelled differently)
 			}
 		case ak < 55:
-			h.Await = envlab.Expr(tm.Name, laterWeight(r, w))
+			h.Await = spell(r, tm.Name, laterWeight(r, w))
 		case ak < 70:
 			var c []momentRef
 			for _, m := range moms {
@@ -161,9 +206,9 @@ func genHooks(r *rand.Rand, walk []string, maxHooks int, prefix string, allowGat
 				}
 			}
 			if len(c) == 0 {
-				h.Await = envlab.Expr(tm.Name, laterWeight(r, w))
+				h.Await = spell(r, tm.Name, laterWeight(r, w))
 			} else {
-				h.Await = envlab.Expr(c[r.Intn(len(c))].Name, pickWeight(r))
+				h.Await = spell(r, c[r.Intn(len(c))].Name, pickWeight(r))
 			}
 		case ak < 85:
 			var c []momentRef
@@ -173,12 +218,12 @@ func genHooks(r *rand.Rand, walk []string, maxHooks int, prefix string, allowGat
 				}
 			}
 			if len(c) == 0 {
-				h.Await = envlab.Expr(neverMoments[r.Intn(len(neverMoments))], pickWeight(r))
+				h.Await = spell(r, neverMoments[r.Intn(len(neverMoments))], pickWeight(r))
 			} else {
-				h.Await = envlab.Expr(c[r.Intn(len(c))].Name, pickWeight(r))
+				h.Await = spell(r, c[r.Intn(len(c))].Name, pickWeight(r))
 			}
 		default:
-			h.Await = envlab.Expr(neverMoments[r.Intn(len(neverMoments))], pickWeight(r))
+			h.Await = spell(r, neverMoments[r.Intn(len(neverMoments))], pickWeight(r))
 		}
 		switch r.Intn(3) {
 		case 0:
